@@ -173,6 +173,11 @@ class Prov:
                 # simplify field-of-aggregate
                 if e[0] == "agg" and e[1] != "array" and pe["i"] < len(e[3]):
                     e = e[3][pe["i"]]
+                elif e[0] == "bin" and e[1].endswith("WithOverflow"):
+                    if pe["i"] == 0:
+                        e = ("bin", e[1][:-len("WithOverflow")], e[2], e[3])
+                    else:
+                        e = ("overflow", e[1][:-len("WithOverflow")], e[2], e[3])
                 else:
                     e = ("field", e, pe.get("n", str(pe["i"])), pe.get("adt"))
             elif k == "downcast":
@@ -244,6 +249,9 @@ class Prov:
         if k == "cast":
             return ("cast", rv["ck"], self.operand(rv["a"], at, depth + 1, seen), rv["ty"])
         if k == "ref":
+            if not rv["m"] and rv["p"]["l"] not in self.mut_borrowed:
+                # shared borrow: the referent's value is what matters to the rules
+                return ("ref", False, self.place(rv["p"], at, depth + 1, seen))
             return ("ref", rv["m"], self.place_expr(rv["p"], at, depth, seen))
         if k == "rawptr":
             return ("addr", rv["m"] == "Mut", self.place_expr(rv["p"], at, depth, seen))
